@@ -229,6 +229,7 @@ class Job:
         `replay` (module:function, evaluated on the unpatched repo code) reproduces it.
         inputs: {name: z3 term} whose model values are handed to the replay function."""
         conds = list(conds)
+        self._collect(replay, list(fallback)[:2])
         negs = neg if isinstance(neg, (list, tuple)) else [neg]
         if congruence:
             # near=d: only applications within d definition levels of the goal (earlier steps are covered by lemmas)
@@ -321,7 +322,22 @@ class Job:
                 "detail": "sat in the abstraction but not reproduced on the real code (%d models tried): %s"
                           % (len(tried), tried[0]["outcome"])}
 
+    def _collect(self, replay, points):
+        """real-code questions this job would replay (function + fixed inputs): exported so that tools/mkbattery.py can assemble the
+        battery the driver falls back to when changed code leaves the reach of the lifted execution"""
+        if not replay or not os.environ.get("VERIF_COLLECT_BATTERY"):
+            return
+        bag = self.__dict__.setdefault("battery", [])
+        for pt in points:
+            try:
+                text = json.dumps(pt, sort_keys=True)
+            except (TypeError, ValueError):
+                continue
+            if (replay, text) not in bag and len(bag) < 400:
+                bag.append((replay, text))
+
     def refute_concretely(self, oid, replay, inputs, known=None):
+        self._collect(replay, [inputs])
         """a violation established directly by running the real code (e.g. non-termination witness)"""
         out = run_replay(replay, inputs)
         res = {"id": oid, "time": 0.0, "nontrivial": True, "job": self.name, "hash": _hash(oid + repr(inputs)), "kind": "concrete_point"}
@@ -351,6 +367,7 @@ class Job:
     def judge(self, oid, ok, detail, replay, inputs, nontrivial=True):
         """a structural fact observed on the lifted run (lengths, identities, tags): discharged if it holds, otherwise
         reported as a violation only when the replay on the real code reproduces it"""
+        self._collect(replay, [inputs])
         if ok:
             return self.record(oid, "discharged", detail, nontrivial=nontrivial)
         out = run_replay(replay, inputs)
@@ -360,6 +377,8 @@ class Job:
                            nontrivial=nontrivial)
 
     def record(self, oid, status, detail="", nontrivial=True, **extra):
+        if isinstance(extra.get("replay"), dict):
+            self._collect(extra["replay"].get("fn"), [extra["replay"].get("inputs")])
         res = {"id": oid, "status": status, "detail": detail, "time": 0.0, "nontrivial": nontrivial,
                "job": self.name, "hash": _hash(oid + detail)}
         res.update(extra)
@@ -545,6 +564,25 @@ def _replay_in_fresh_process(spec, inputs):
     except Exception:
         pass
     return None
+
+
+def run_battery(entries, timeout=900):
+    """[(spec, inputs-json-text)] -> [(spec, inputs, result)]; all of it in ONE fresh process (no state of any lifted run)"""
+    code = ("import sys, json; sys.path.insert(0, %r); sys.path.insert(0, %r); from vf import core\n"
+            "for spec, text in json.loads(sys.stdin.read()):\n"
+            "    inp = json.loads(text)\n"
+            "    print('@@' + json.dumps([spec, inp, core.run_replay(spec, inp)], default=str), flush=True)\n" % (REPO, VERIF))
+    out = []
+    try:
+        r = subprocess.run([sys.executable, "-c", code], input=json.dumps(entries), capture_output=True, text=True, timeout=timeout,
+                           env=dict(os.environ, VERIF_IN_REPLAY_PROCESS="1"), cwd=VERIF)
+        for line in r.stdout.splitlines():
+            if line.startswith("@@"):
+                spec, inp, res = json.loads(line[2:])
+                out.append((spec, inp, res if isinstance(res, dict) else {"ok": True}))
+    except Exception:
+        pass
+    return out
 
 
 def close(a, b, rel=1e-9, abs_=1e-12):
